@@ -128,6 +128,15 @@ let () =
            | Some o -> print_endline (show_outcome o))
       | ["sem"; f; nf] ->
           let b = parse_ast (dec_bytes f) in
-          print_endline (show_outcome (sem_block run_line for_words set_var (nat_of_int (int_of_string nf)) b false w0))
+          print_endline (show_outcome (sem_block run_line for_words set_var false (nat_of_int (int_of_string nf)) b false w0))
+      | ["seme"; f; nf] ->
+          (* the reference semantics with set -e in effect (C15_sete) *)
+          let b = parse_ast (dec_bytes f) in
+          print_endline (show_outcome (sem_block run_line for_words set_var true (nat_of_int (int_of_string nf)) b false w0))
+      | ["rune"; f; nf] ->
+          let t = str_of_field f in
+          (match run_lines run_line for_words set_var (fun _ -> true) (nat_of_int (int_of_string nf)) t w0 with
+           | None -> print_endline "SYNTAX-ERROR"
+           | Some o -> print_endline (show_outcome o))
       | _ -> print_endline "?bad-case"
     with Bad m -> print_endline ("?bad-ast " ^ m)) Sys.argv.(1)
